@@ -207,6 +207,10 @@ namespace link_layer {
 
             if ( type == pdu_type_start )
             {
+                // a new start fragment ends the reassembly of a not yet completed SDU
+                receive_buffer_used_ = 0;
+                receive_size_        = 0;
+
                 if ( body_size >= l2cap_header_size )
                 {
                     const std::uint16_t l2cap_size  = bluetoe::details::read_16bit( body.first );
